@@ -1,12 +1,277 @@
 /-
-  C05 — parse → write → parse preserves content; written text is a fixpoint.  (under construction)
+  C05 — parse → write → parse preserves content; the written text is a fixpoint.
+
+  Statements only.  `Pipeline.parseDefault` / `Pipeline.writeDefault` are the models of `parse_string`
+  / `write_string` with the default stacks (Pipeline.lean); `contentOf` is what C05 compares (class,
+  type, key, field keys and values in order, value / comment text - not raw, lines, metadata).
+
+  Hypotheses (Lemmas/PrintParseDefs.lean):
+  * `PrintOK P`   - per-character facts about CPython's `\w`, `str.isspace`, `str.lower` (each checked
+                    against the running CPython over all code points on every run);
+  * `FormatOK F`  - `indent` consists of blanks/tabs, `block_separator` of blanks/tabs/newlines; any
+                    `value_column` (int or "auto"), any `trailing_comma`;
+  * `Writable P L`- the library consists of entries, @strings, @preambles, explicit and free-text
+                    comments (no failed block); entry keys pairwise distinct, @string keys pairwise
+                    distinct, field keys distinct within an entry; entry types are lower-case `\w` words
+                    other than comment/preamble/string...; keys are `SimpleText` (no delimiter, `@`,
+                    backslash) and stripped; every value / preamble / explicit comment is `CleanVal`
+                    (its text, followed by `}`, lexes to brace-balanced tokens and the closing brace);
+                    free-text comments are non-empty, stripped, contain no `@`, and no two are adjacent;
+                    an entry's `removed_enclosing` metadata is absent or a dict.
+  Proof: Lemmas/PrintParseLex (text → tokens of a grammar derivation, block by block),
+  PrintParseDoc (the derivation is well formed, C02 `split_correct` gives the blocks),
+  PrintParsePipe / PrintParseMain (write stack, parse stack on enclosed values), PrintParseFix (fixpoint).
 -/
-import BibVerif.Pipeline
+import BibVerif.Lemmas.PrintParseFix
+import BibVerif.Lemmas.PrintParseClean
+import BibVerif.Lemmas.ParsedWritable
 namespace Bib.C05
-open Bib Bib.Pipeline
+open Bib Bib.Pipeline Bib.PrintParse Bib.Writer
 
 /-- the content of a block does not mention raw text, lines or metadata -/
 theorem content_ignores_position (e : Entry) (l : Int) (r : Str) (m : MetaD) :
     contentOf (.live (.entry { e with line := l, raw := r, md := m })) = contentOf (.live (.entry e)) := rfl
+
+/-! ### the property, at full strength -/
+
+/-- **print → parse**: writing a writable library and parsing the text gives the same content -/
+def print_parse_full : Prop :=
+  ∀ (P : PyChars) (F : BibtexFormat) (L : List Block), PrintOK P → FormatOK F → Writable P L →
+    ∃ t L', writeDefault P F L = .ok t ∧ parseDefault P t = .ok L' ∧ L'.map contentOf = L.map contentOf
+
+/-- **fixpoint**: writing the re-parsed library reproduces the text byte for byte -/
+def fixpoint_full : Prop :=
+  ∀ (P : PyChars) (F : BibtexFormat) (L : List Block), PrintOK P → FormatOK F → Writable P L →
+    ∃ t L', writeDefault P F L = .ok t ∧ parseDefault P t = .ok L' ∧ writeDefault P F L' = .ok t
+
+/-- **parsed ⇒ writable**: a library returned by `parse_string` whose blocks pass the content side
+conditions `SideOK` (Lemmas/ParsedWritable.lean: no failed block; entry types are lower-case `\w` words;
+keys are `SimpleText`; every value / preamble / explicit comment is `TextOK` = its tokens are
+brace-balanced - hence contain no block start - and it does not end in a backslash; free-text
+comments contain no `@`) is writable -/
+def parsed_writable_full : Prop :=
+  ∀ (P : PyChars) (s : Str) (L : List Block), PrintOK P →
+    parseDefault P s = .ok L → (∀ b ∈ L, SideOK P b) → Writable P L
+
+/-- **content_preserved**: for such a document the whole round trip parse → write → parse → write
+succeeds; both libraries have the same content, both texts are equal -/
+def content_preserved_full : Prop :=
+  ∀ (P : PyChars) (F : BibtexFormat) (s : Str) (L : List Block), PrintOK P → FormatOK F →
+    parseDefault P s = .ok L → (∀ b ∈ L, SideOK P b) →
+    ∃ rt, roundTrip P F s = .ok rt ∧ rt.lib1 = L ∧ rt.lib2.map contentOf = rt.lib1.map contentOf ∧
+      rt.text2 = rt.text1
+
+/-! The property's "well-formed document" at the level of the dialect grammar (DESIGN §6 C05, `WF₅`):
+a derivation with pairwise distinct keys, no stripped key / value / explicit comment ending in a
+backslash, entry types that are `\w` words after lower-casing.  `SideOK` is narrower (keys without
+backslash / `@`, values that stay balanced once their own enclosing is stripped, no `@` in free-text
+comments); the statement for all of `WF₅` is kept here and is NOT proved. -/
+
+def srcNoBS (P : PyChars) (ts : List Tok) : Prop := Reparse.endBS false (strip P (flatten ts)) = false
+
+def BlockSrc.WF5 (P : PyChars) : BlockSrc → Prop
+  | .comment _ body => srcNoBS P body
+  | .preamble _ _ => True
+  | .string _ key val => srcNoBS P key ∧ srcNoBS P val
+  | .entry lit key fields _ =>
+    (∀ c ∈ (classify P lit).2, P.isWord c = true) ∧ srcNoBS P key ∧
+    ∀ f ∈ fields, srcNoBS P f.key ∧ srcNoBS P f.val
+
+def Doc.WF5 (P : PyChars) (d : Doc) : Prop :=
+  d.WF P ∧ d.DistinctFields P ∧ (∀ bj ∈ d.items, BlockSrc.WF5 P bj.1) ∧
+  (d.items.filterMap fun bj => match bj.1 with
+    | .entry _ key _ _ => some (strip P (flatten key)) | _ => none).Nodup ∧
+  (d.items.filterMap fun bj => match bj.1 with
+    | .string _ key _ => some (strip P (flatten key)) | _ => none).Nodup
+
+def content_preserved_grammar_full : Prop :=
+  ∀ (P : PyChars) (F : BibtexFormat) (d : Doc) (s : Str), PrintOK P → FormatOK F → Doc.WF5 P d →
+    Canon P false d.toks → '\n' :: s = flatten d.toks →
+    ∃ rt, roundTrip P F s = .ok rt ∧ rt.lib2.map contentOf = rt.lib1.map contentOf ∧ rt.text2 = rt.text1
+
+/-! ### what is proved -/
+
+variable {P : PyChars}
+
+/-- **The text `write_string` produces** for a writable library: the blocks `render`ed with the
+column `wcol` (the `value_column`, or the longest field key + 3 for `"auto"`). -/
+theorem written_text (F : BibtexFormat) (L : List Block) (hw : Writable P L) :
+    writeDefault P F L = .ok (render F (wcol F L) L) :=
+  writeDefault_render F L hw
+
+/-- **print_parse** (all block classes, free-text comments, every separator / indent / column /
+trailing-comma setting): the written text parses back to the same sequence of blocks with the same
+types, keys, field order and values and the same comment / preamble / @string content. -/
+theorem print_parse : print_parse_full := by
+  intro P F L hP hF hw
+  obtain ⟨L', h1, h2, h3, _⟩ := print_parse_render hP F hF L hw
+  exact ⟨_, L', h1, h2, h3⟩
+
+/-- **The re-parsed library is writable again** (so the two theorems can be iterated). -/
+theorem reparsed_writable (hP : PrintOK P) (F : BibtexFormat) (hF : FormatOK F) (L : List Block)
+    (hw : Writable P L) (t : Str) (L' : List Block) (ht : writeDefault P F L = .ok t)
+    (hp : parseDefault P t = .ok L') : L'.map contentOf = L.map contentOf ∧ Writable P L' := by
+  obtain ⟨L'', h1, h2, h3, h4⟩ := print_parse_render hP F hF L hw
+  rw [h1] at ht; injection ht with ht; subst ht
+  rw [h2] at hp; injection hp with hp; subst hp
+  exact ⟨h3, writable_congr L L'' h3 hw h4⟩
+
+/-- **fixpoint**: writing the re-parsed library gives the first output byte for byte. -/
+theorem fixpoint : fixpoint_full := by
+  intro P F L hP hF hw
+  obtain ⟨L', h1, h2, h3, h4⟩ := print_parse_render hP F hF L hw
+  refine ⟨_, L', h1, h2, ?_⟩
+  rw [writeDefault_render F L' (writable_congr L L' h3 hw h4), render_congr F L L' h3]
+
+/-- The written text depends only on the content of the library. -/
+theorem write_content_only (F : BibtexFormat) (L₁ L₂ : List Block) (h₁ : Writable P L₁) (h₂ : Writable P L₂)
+    (hc : L₁.map contentOf = L₂.map contentOf) : writeDefault P F L₁ = writeDefault P F L₂ := by
+  rw [writeDefault_render F L₁ h₁, writeDefault_render F L₂ h₂, render_congr F L₂ L₁ hc]
+
+/-- **parse → write → parse → write** on a text whose parse is writable: the model's `roundTrip`
+succeeds, both libraries have the same content and both texts are equal. -/
+theorem roundtrip (hP : PrintOK P) (F : BibtexFormat) (hF : FormatOK F) (s : Str) (L : List Block)
+    (hs : parseDefault P s = .ok L) (hw : Writable P L) :
+    ∃ rt, roundTrip P F s = .ok rt ∧ rt.lib1 = L ∧ rt.lib2.map contentOf = rt.lib1.map contentOf ∧
+      rt.text2 = rt.text1 := by
+  obtain ⟨L', h1, h2, h3, h4⟩ := print_parse_render hP F hF L hw
+  have h5 : writeDefault P F L' = .ok (render F (wcol F L) L) := by
+    rw [writeDefault_render F L' (writable_congr L L' h3 hw h4), render_congr F L L' h3]
+  refine ⟨⟨L, render F (wcol F L) L, L', render F (wcol F L) L⟩, ?_, rfl, h3, rfl⟩
+  simp only [roundTrip, hs, h1, h2, h5, bind, Except.bind, pure, Except.pure]
+
+/-- **parsed_writable**: whatever the text, the library `parse_string` returns has stripped keys,
+pairwise distinct live keys and field keys, no adjacent free-text comments and string values
+(`parsed_inv`, splitter and pipeline invariants); with the content side conditions it is writable. -/
+theorem parsed_writable : parsed_writable_full := by
+  intro P s L hP hs hside
+  exact parsed_writable_lemma hP.rbWord s L hs hside
+
+/-- what every parsed library satisfies, with no side condition at all -/
+theorem parsed_library_invariants (s : Str) (L : List Block) (h : parseDefault P s = .ok L) :
+    (∀ b ∈ L, BInv P b) ∧ NoAdjImpl L ∧ (entryKeys L).Nodup ∧ (stringKeys L).Nodup ∧
+      StrBlocks L ∧ MdBlocks L := by
+  obtain ⟨⟨h1, h2⟩, h3, h4, h5, h6⟩ := parsed_inv s L h
+  exact ⟨h1, h2, h3, h4, h5, h6⟩
+
+/-- **content_preserved**: parse → write → parse → write on a document whose parse passes the side
+conditions. -/
+theorem content_preserved : content_preserved_full := by
+  intro P F s L hP hF hs hside
+  exact roundtrip hP F hF s L hs (parsed_writable P s L hP hs hside)
+
+/-- A sufficient, purely lexical condition for a value to be `CleanVal`: its own tokens are
+brace-balanced and it does not end in a backslash (`TextOK`). -/
+theorem cleanVal_of_textOK (hP : PrintOK P) (v : Str) (h : TextOK P v) : CleanVal P v :=
+  cleanVal_of_lex hP.rbWord v h.1 h.2
+
+/-! ### non-vacuity -/
+
+def exF1 : Field := ⟨"title".toList, .str "x{y{z}}".toList, 0⟩
+def exF2 : Field := ⟨"averyveryverylongkey".toList, .str "2020".toList, 0⟩
+def exF3 : Field := ⟨"t".toList, .str "w".toList, 0⟩
+
+def exE1 : Entry :=
+  { ty := "article".toList, key := "k1".toList, fields := [exF1, exF2], line := 0, raw := [] }
+
+def exE2 : Entry :=
+  { ty := "book".toList, key := "".toList,
+    fields := [exF3], line := 0, raw := [],
+    md := [(Enclosing.REMOVED_ENCLOSING_KEY, .dict [("t".toList, "{".toList)])] }
+
+/-- two entries (a nested-brace value, an empty key, metadata from a previous parse), an @string, a
+free-text comment, a preamble and an explicit comment -/
+def exLib : List Block :=
+  [.live (.entry exE1), .live (.string "s".toList (.str "v".toList) 0 [] []),
+   .live (.impl "free text, with = and {".toList 0 [] []), .live (.entry exE2),
+   .live (.preamble "x{y{z}}".toList 0 [] []), .live (.expl "2020".toList 0 [] [])]
+
+theorem simple_of_decide (t : Str) (h : t.all simpleChar = true) : SimpleText t :=
+  fun c hc => List.all_eq_true.mp h c hc
+
+theorem exLib_writable : Writable asciiChars exLib := by
+  have c1 : CleanVal asciiChars "x{y{z}}".toList := cleanVal_nested
+  have c2 : CleanVal asciiChars "2020".toList := cleanVal_simple _ (simple_of_decide _ (by decide))
+  have c3 : CleanVal asciiChars "w".toList := cleanVal_simple _ (simple_of_decide _ (by decide))
+  have c4 : CleanVal asciiChars "v".toList := cleanVal_simple _ (simple_of_decide _ (by decide))
+  refine ⟨?_, by decide, by decide, by simp [exLib, NoAdjImpl, isImpl]⟩
+  intro b hb
+  simp only [exLib, List.mem_cons, List.not_mem_nil, or_false] at hb
+  rcases hb with rfl | rfl | rfl | rfl | rfl | rfl
+  · refine ⟨by decide, by decide, by decide, by decide, by decide, by decide,
+      simple_of_decide _ (by decide), by decide, ?_, by decide, Or.inl rfl⟩
+    intro f hf
+    change f ∈ [exF1, exF2] at hf
+    simp only [List.mem_cons, List.not_mem_nil, or_false] at hf
+    rcases hf with rfl | rfl
+    · exact ⟨simple_of_decide _ (by decide), by decide, _, rfl, c1⟩
+    · exact ⟨simple_of_decide _ (by decide), by decide, _, rfl, c2⟩
+  · exact ⟨simple_of_decide _ (by decide), by decide, _, rfl, c4⟩
+  · exact ⟨by decide, by decide, by decide⟩
+  · refine ⟨by decide, by decide, by decide, by decide, by decide, by decide,
+      simple_of_decide _ (by decide), by decide, ?_, by decide, Or.inr ⟨_, rfl⟩⟩
+    intro f hf
+    change f ∈ [exF3] at hf
+    simp only [List.mem_cons, List.not_mem_nil, or_false] at hf
+    subst hf
+    exact ⟨simple_of_decide _ (by decide), by decide, _, rfl, c3⟩
+  · exact c1
+  · exact ⟨c2, by decide⟩
+
+def exFormat : BibtexFormat :=
+  { indent := "  ".toList, valueColumn := .auto, blockSeparator := "\n \n".toList, trailingComma := true }
+
+example : PrintOK asciiChars ∧ FormatOK exFormat ∧ Writable asciiChars exLib :=
+  ⟨printOK_ascii, ⟨by decide, by decide⟩, exLib_writable⟩
+
+/-- the text the model's write stack produces for the example (kernel evaluation): `auto` column,
+trailing commas, two-space indent, separator `"\n \n"` -/
+example : writeDefault asciiChars exFormat exLib = .ok
+    ("@article{k1,\n  title                = {x{y{z}}},\n  averyveryverylongkey = {2020},\n}\n\n \n" ++
+     "@string{s = {v}}\n\n \nfree text, with = and {\n\n \n@book{,\n  t                    = {w},\n}\n\n \n" ++
+     "@preamble{x{y{z}}}\n\n \n@comment{2020}\n").toList := by
+  decide +kernel
+
+/-- ... and by `print_parse` / `fixpoint` that text parses back to the same content and is a fixpoint -/
+example : ∃ t L', writeDefault asciiChars exFormat exLib = .ok t ∧ parseDefault asciiChars t = .ok L' ∧
+    writeDefault asciiChars exFormat L' = .ok t :=
+  fixpoint asciiChars exFormat exLib printOK_ascii ⟨by decide, by decide⟩ exLib_writable
+
+theorem exLib_sideOK : ∀ b ∈ exLib, SideOK asciiChars b := by
+  have t1 : TextOK asciiChars "x{y{z}}".toList := textOK_nested
+  have t2 : TextOK asciiChars "2020".toList := textOK_simple _ (simple_of_decide _ (by decide))
+  have t3 : TextOK asciiChars "w".toList := textOK_simple _ (simple_of_decide _ (by decide))
+  have t4 : TextOK asciiChars "v".toList := textOK_simple _ (simple_of_decide _ (by decide))
+  intro b hb
+  simp only [exLib, List.mem_cons, List.not_mem_nil, or_false] at hb
+  rcases hb with rfl | rfl | rfl | rfl | rfl | rfl
+  · refine ⟨by decide, by decide, by decide, by decide, by decide, simple_of_decide _ (by decide), ?_⟩
+    intro f hf
+    change f ∈ [exF1, exF2] at hf
+    simp only [List.mem_cons, List.not_mem_nil, or_false] at hf
+    rcases hf with rfl | rfl
+    · exact ⟨simple_of_decide _ (by decide), fun v hv => by injection hv with hv; subst hv; exact t1⟩
+    · exact ⟨simple_of_decide _ (by decide), fun v hv => by injection hv with hv; subst hv; exact t2⟩
+  · exact ⟨simple_of_decide _ (by decide), fun v hv => by injection hv with hv; subst hv; exact t4⟩
+  · show '@' ∉ _; decide
+  · refine ⟨by decide, by decide, by decide, by decide, by decide, simple_of_decide _ (by decide), ?_⟩
+    intro f hf
+    change f ∈ [exF3] at hf
+    simp only [List.mem_cons, List.not_mem_nil, or_false] at hf
+    subst hf
+    exact ⟨simple_of_decide _ (by decide), fun v hv => by injection hv with hv; subst hv; exact t3⟩
+  · exact t1
+  · exact t2
+
+/-- non-vacuity of `parsed_writable` / `content_preserved`: there is a document (the written text of the
+example) whose parse has six blocks, all passing the side conditions -/
+example : ∃ s L, parseDefault asciiChars s = .ok L ∧ L.length = 6 ∧ ∀ b ∈ L, SideOK asciiChars b := by
+  obtain ⟨L', _, h2, h3, _⟩ := print_parse_render printOK_ascii exFormat ⟨by decide, by decide⟩ exLib exLib_writable
+  refine ⟨_, L', h2, ?_, sideOK_congr exLib L' h3 exLib_sideOK⟩
+  have := congrArg List.length h3
+  simpa [exLib] using this
+
+/-- `TextOK` is satisfiable: the nested-brace value of the example -/
+example : Reparse.endBS false "x{y{z}}".toList = false := by decide
 
 end Bib.C05
